@@ -605,7 +605,73 @@ def r6_nothing_changes_before_evolving(ctx):
     ctx.counts['R-C17.6 functions reachable before evolving.send'] = n_funcs
 
 
+def r7_statement_generator_iterated_once(ctx, rule_id='R-C17.7'):
+    """SQLExecutor.run_sql gets its batches from generator functions.  A
+    generator can be iterated once: a second loop over the same object sees
+    nothing, run_sql returns normally having executed no statement, and the
+    applying/applied signals (and `evolved`) are sent for SQL that never
+    ran.  On every path through run_sql a value produced by a generator
+    function is iterated at most once unless it was materialised (list(...))
+    first."""
+    ctx.rule(rule_id)
+    p = ctx.program
+    f = p.func('utils.sql', 'SQLExecutor.run_sql')
+    cls = f.cls
+    gens = {m.name for m in cls.methods.values()
+            if any(isinstance(x, (ast.Yield, ast.YieldFrom))
+                   for x in walk_no_nested(m.node))}
+    g = ctx.cfg(f)
+    from ..flow import ReachingDefs
+    from ..util import for_heads
+    rd = ReachingDefs(g, f.params)
+    heads = for_heads(g)
+    n_gen_loops = 0
+    for a in heads:
+        it = a.ast.iter
+        base = it.args[0] if isinstance(it, ast.Call) and \
+            isinstance(it.func, ast.Name) and it.func.id == 'enumerate' and \
+            it.args else it
+        if not isinstance(base, ast.Name):
+            continue
+        defs = [d for d in rd.reaching(a, base.id) if d.kind != 'mutate']
+        lazy = [d for d in defs if isinstance(d.value, ast.Call) and
+                call_name(d.value) in gens]
+        if not lazy:
+            continue
+        n_gen_loops += 1
+        # another loop over the same definition reachable after this one
+        for b in heads:
+            if b is a:
+                continue
+            bit = b.ast.iter
+            bbase = bit.args[0] if isinstance(bit, ast.Call) and \
+                isinstance(bit.func, ast.Name) and \
+                bit.func.id == 'enumerate' and bit.args else bit
+            if not (isinstance(bbase, ast.Name) and bbase.id == base.id):
+                continue
+            exits = [s_ for s_, l in a.succ if l == 'F']
+            if b.id not in g.reachable(exits, follow_exc=False):
+                continue
+            shared = {id(d) for d in lazy} & {
+                id(d) for d in rd.reaching(b, base.id)}
+            if shared:
+                ctx.finding(f, b.ast, 'the generator %s (from %s) is iterated '
+                            'by the loop at line %d and again here without '
+                            'being materialised in between: the second loop '
+                            'sees nothing, run_sql executes no statement and '
+                            'returns normally' % (
+                                base.id, call_name(lazy[0].value),
+                                a.ast.lineno),
+                            key='generator-iterated-twice:%s' % base.id)
+    if n_gen_loops:
+        ctx.ok(f, '%d loop(s) over generator-produced values checked' %
+               n_gen_loops)
+    ctx.floor('loops over generator-produced values in run_sql',
+              n_gen_loops, 1)
+
+
 def run(ctx):
+    r7_statement_generator_iterated_once(ctx)
     r6_nothing_changes_before_evolving(ctx)
     r5_payload_provenance(ctx)
     r1_run_level(ctx)
